@@ -28,6 +28,14 @@
 (*   eventually destroyed, and instances that fail to boot or report       *)
 (*   themselves broken are drained and shut down"                          *)
 (*                                       Final: timedout => instances = 0  *)
+(*  "instances that ... report themselves broken are drained and shut down  *)
+(*   instead of receiving more work"                                       *)
+(*       Broken(w): a probe answer of instance w said "broken";            *)
+(*       ProcStartOn(w): after that at most ONE more crunch-run is started *)
+(*       on w by the same dispatcher (a start decided before the answer    *)
+(*       could be processed cannot be excluded; a second one needs the     *)
+(*       instance to have become idle again, i.e. a later probe); that it  *)
+(*       is shut down is part of "instances = 0" at the end                *)
 (*  A dispatcher that dies under the faults it is meant to survive makes   *)
 (*  no progress at all: Crashed is never allowed.                          *)
 (* A run that drained before the deadline satisfies the contract by        *)
@@ -35,17 +43,30 @@
 (***************************************************************************)
 EXTENDS Naturals, FiniteSets
 
-VARIABLE lst        \* "run" | "done"
-lcvars == <<lst>>
+VARIABLES lst,      \* "run" | "done"
+          brk,      \* instances that have reported themselves broken
+          used      \* those of them that got a crunch-run since (from the present dispatcher)
+lcvars == <<lst, brk, used>>
 
-LCInit == lst = "run"
+LCInit == lst = "run" /\ brk = {} /\ used = {}
+
+Broken(w) == brk' = brk \cup {w} /\ UNCHANGED <<lst, used>>
+
+ProcStartOn(w) ==
+    /\ w \in brk => w \notin used
+    /\ used' = IF w \in brk THEN used \cup {w} ELSE used
+    /\ UNCHANGED <<lst, brk>>
+
+\* the dispatcher is replaced: the new one learns "broken" from its own first probe
+Restarted == used' = {} /\ UNCHANGED <<lst, brk>>
 
 Final(timedout, notfinal, instances) ==
     /\ lst = "run"
     /\ timedout => (notfinal = {} /\ instances = 0)
     /\ lst' = "done"
+    /\ UNCHANGED <<brk, used>>
 
-Crashed == FALSE /\ UNCHANGED lst
+Crashed == FALSE /\ UNCHANGED lcvars
 
-Other == UNCHANGED lst
+Other == UNCHANGED lcvars
 =============================================================================
